@@ -24,7 +24,7 @@ def unwrap_try(e):
                 inner = inner[3][0]
             e = inner
             continue
-        if isinstance(e, tuple) and e[0] == "call" and e[1] in ("unwrap", "expect") and e[3]:
+        if isinstance(e, tuple) and e[0] == "call" and e[1] in ("unwrap", "expect", "ok_or", "ok_or_else", "unwrap_or_else") and e[3]:
             e = e[3][0]
             continue
         break
@@ -235,14 +235,9 @@ def rule_c09_terms(ctx, prog, rule="R19"):
     # count_neq = len − count_eq
     root = prog.method("DeviationExt", "count_neq")
     try:
-        r = ds(root.return_expr())
-        ok = False
-        if r[0] == "call" and r[1] == "map":
-            cb, ups = closure_of(prog, r[3][1])
-            K = Kernel(prog, cb, _leaf_for(prog, cb, {2: ("sym", "n_eq")}))
-            t = K.term(cb.return_expr())
-            ok = t == ("sub", ("sym", "N"), ("sym", "n_eq"))
-        ctx.ob(rule, "count_neq/formula", ok, root.where(), "= len(self) − count_eq" if ok else "count_neq is `%s`" % fmt(r)[:120],
+        t = routine_value(prog, root)
+        ok = t == ("sub", ("sym", "N"), ("sym", "count_eq"))
+        ctx.ob(rule, "count_neq/formula", ok, root.where(), "= len(self) − count_eq" if ok else "count_neq computes `%s`" % show(t),
                what="count_neq is not len − count_eq")
     except Unrecognised as ex:
         unrec(ctx, rule, "count_neq/formula", root.where(), ex)
@@ -306,22 +301,38 @@ def _leaf_for(prog, body, param_syms, extra=None):
 
 
 def routine_value(prog, root, param_syms=None, extra=None):
-    """T-term of the Ok(..) value a routine returns on its success path (single success definition)"""
+    """T-term of the Ok(..) value a routine returns on its success path (single success definition);
+    `g(..).map(f)` on a Result/Option is f applied to g's success value"""
     ps = dict(param_syms or {})
     for l in range(2, root.arg_count + 1):
         ps.setdefault(l, ("sym", root.local_name(l) or "p%d" % l))
     tb = prog.tracked(root)
-    ex = tb.exits()
-    finals = []
-    for d in tb.reaching_defs(0, ex[0], "term"):
-        e = ds(tb.def_expr(0, d))
-        if isinstance(e, tuple) and e[0] == "agg" and e[1] == "std::result::Result" and e[2] == "Ok":
-            finals.append(e[3][0])
-        elif isinstance(e, tuple) and e[0] == "call" and e[1] not in ("from_residual",):
-            finals.append(e)
+    finals = [v for _, v in success_values(tb) if not (isinstance(v, tuple) and v[0] == "phi")]
     if len(finals) != 1:
         raise Unrecognised("%d success values" % len(finals))
-    K = Kernel(prog, tb, _leaf_for(prog, tb, ps, extra))
+    base_leaf = _leaf_for(prog, tb, ps, extra)
+
+    def leaf(x):
+        if isinstance(x, tuple) and x[0] == "call" and x[1] == "map" and len(x[3]) == 2 and ("result::Result" in x[2] or "option::Option" in x[2]):
+            inner = K.term(x[3][0]) if base_leaf(x[3][0]) is None else base_leaf(x[3][0])
+            f = ds(x[3][1])
+            if isinstance(f, tuple) and f[0] == "agg" and f[1] == "closure":
+                cb = prog.bodies[f[2]]
+                Kc = Kernel(prog, cb, _leaf_for(prog, cb, {2: inner}, extra))
+                return Kc.term(cb.return_expr())
+            if isinstance(f, tuple) and f[0] == "fn":
+                nm = f[1].rsplit("::", 1)[-1]
+                if nm in T.FN1:
+                    return ("fn", nm, inner)
+            raise Unrecognised("map with `%s`" % fmt(f)[:60])
+        r = base_leaf(x)
+        if r is not None:
+            return r
+        # a bare call to a sibling routine (not unwrapped with `?`): its success value
+        if isinstance(x, tuple) and x[0] == "call" and (x[2].startswith("deviation::") or x[2].startswith("summary_statistics::")):
+            return ("sym", x[1])
+        return None
+    K = Kernel(prog, tb, leaf)
     return K.term(finals[0])
 
 
@@ -1093,43 +1104,85 @@ def edge_terms(prog):
         Ka = Kernel(prog, tn, lambda e: ("sym", "E") if e == ds(lp.head_phi(l)) else self_field_leaf(e))
         out["compared"] = None
         out["accumulated"] = dict(var=tn.local_name(l), init=show(Ka.term(lp.init_expr(l))), step=show(Ka.term(lp.step_expr(l))))
-    # ---- build: loop over 0..=n_bins pushing edge(i)
-    lpb = T.Loop(tbd)
-    it = lpb.iterator()
-    if it is None:
-        raise Unrecognised("build: no iterator loop")
-    il, item, iinit = it
-    rng = ds(iinit)
-    while isinstance(rng, tuple) and rng[0] == "call" and rng[1] == "into_iter":
-        rng = ds(rng[3][0])
+    # ---- build: edges for i in 0..=n_bins, either `for i in .. { edges.push(e(i)) }` or `(..).map(|i| e(i)).collect()`
+    def edge_leaf_factory(K_get, ctx_body, idx_expr):
+        def leaf_b(e):
+            if idx_expr is not None and e == idx_expr:
+                return ("sym", "i")
+            sf = self_field_leaf(e)
+            if sf:
+                return sf
+            if isinstance(e, tuple) and e[0] == "upvar":
+                pb, pe = up(prog, ctx_body, e)
+                pe = ds(pe)
+                if pe[:2] == ("param", 1):
+                    return ("sym", "self")
+            if isinstance(e, tuple) and e[0] == "field" and isinstance(e[1], tuple) and e[1][0] == "upvar":
+                pb, pe = up(prog, ctx_body, e[1])
+                if ds(pe)[:2] == ("param", 1):
+                    return ("sym", "self." + e[2])
+            if isinstance(e, tuple) and e[0] == "call" and (e[2].startswith("histogram::strategies::EquiSpaced") and e[1] not in ("n_bins",)):
+                recv = ds(e[3][0]) if e[3] else None
+                if isinstance(recv, tuple) and recv[0] == "upvar":
+                    pb, pe = up(prog, ctx_body, recv)
+                    recv = ds(pe)
+                if isinstance(recv, tuple) and recv[:2] == ("param", 1):
+                    e2 = ("call", e[1], e[2], (("param", 1, "self"),) + tuple(e[3][1:]), e[4])
+                    res = inline_local_call(prog, ctx_body, e2, None)
+                    if res is not None:
+                        t, cb = res
+                        m = {}
+                        for k, a in enumerate(e[3]):
+                            if k == 0:
+                                continue
+                            m["@arg%d" % (k + 1)] = K_get().term(a)
+                        out.setdefault("helpers", set()).add(cb.key)
+                        return subst_t(t, m)
+            return None
+        return leaf_b
+    rng = None
+    pushed_t = None
+    holder = {}
+    try:
+        lpb = T.Loop(tbd)
+        it = lpb.iterator()
+    except Unrecognised:
+        lpb, it = None, None
+    if it is not None:
+        il, item, iinit = it
+        rng = ds(iinit)
+        while isinstance(rng, tuple) and rng[0] == "call" and rng[1] == "into_iter":
+            rng = ds(rng[3][0])
+        pushes = [(pb, t) for pb, t in tbd.calls() if callee_name(t) == "push" and pb in lpb.blocks]
+        if len(pushes) != 1:
+            raise Unrecognised("build: %d pushes in the loop" % len(pushes))
+        pb, pt = pushes[0]
+        pushed = tbd.call_arg_exprs(pb)[1]
+        Kb = Kernel(prog, tbd, edge_leaf_factory(lambda: holder["K"], tbd, ds(item)))
+        holder["K"] = Kb
+        pushed_t = Kb.term(pushed)
+    else:
+        for bb, t in tbd.calls():
+            if callee_name(t) == "map" and (t["callee"].get("trait") or "").endswith("Iterator"):
+                a = tbd.call_arg_exprs(bb)
+                cb, ups = closure_of(prog, a[1])
+                if cb is None:
+                    continue
+                rng = ds(a[0])
+                while isinstance(rng, tuple) and rng[0] == "call" and rng[1] == "into_iter":
+                    rng = ds(rng[3][0])
+                tcb = prog.tracked(cb)
+                Kb = Kernel(prog, tcb, edge_leaf_factory(lambda: holder["K"], tcb, ("param", 2, tcb.local_name(2))))
+                holder["K"] = Kb
+                pushed_t = Kb.term(tcb.return_expr())
+                # the mapped values must be collected in order into the edges vector
+                coll = any(callee_name(t2) == "collect" and ds(tbd.call_arg_exprs(b2)[0])[:2] == ("call", "map") for b2, t2 in tbd.calls())
+                if not coll:
+                    raise Unrecognised("build: mapped edges are not collected")
+    if pushed_t is None:
+        raise Unrecognised("build: neither a push loop nor map(..).collect() over the bin indices")
     out["range"] = rng
-    pushes = [(pb, t) for pb, t in tbd.calls() if callee_name(t) == "push" and pb in lpb.blocks]
-    if len(pushes) != 1:
-        raise Unrecognised("build: %d pushes in the loop" % len(pushes))
-    pb, pt = pushes[0]
-    pushed = tbd.call_arg_exprs(pb)[1]
-    item_d = ds(item)
-
-    def leaf_b(e):
-        if e == item_d:
-            return ("sym", "i")
-        sf = self_field_leaf(e)
-        if sf:
-            return sf
-        if isinstance(e, tuple) and e[0] == "call" and (e[2].startswith("histogram::strategies::EquiSpaced") and e[1] not in ("n_bins",)):
-            res = inline_local_call(prog, tbd, e, None)
-            if res is not None:
-                t, cb = res
-                m = {}
-                for k, a in enumerate(e[3]):
-                    if k == 0:
-                        continue
-                    m["@arg%d" % (k + 1)] = Kb.term(a)
-                out.setdefault("helpers", set()).add(cb.key)
-                return subst_t(t, m)
-        return None
-    Kb = Kernel(prog, tbd, leaf_b)
-    out["pushed"] = Kb.term(pushed)
+    out["pushed"] = pushed_t
     # result: Bins::new(Edges::from(edges vector))
     out["build_body"] = tbd
     out["nbins_body"] = tn
@@ -1197,21 +1250,36 @@ def rule_c12_structure(ctx, prog, rule="R13"):
         ctx.ob("R11", "EquiSpaced/constructed-in/%s" % short(b.key), ok, b.where(bb, si),
                "constructed only by EquiSpaced::new" if ok else "EquiSpaced built outside its validating constructor", what="builder without validity guard")
         if ok:
-            # dominated by the false edges of `bin_width <= zero()` and `min >= max`
-            doms = []
+            # every path to the construction has established  zero < bin_width  and  min < max
+            rels = set()
             for sb in b.live_blocks():
                 st = b.term(sb)
                 if st["k"] != "switch":
                     continue
                 de = ds(b.switch_discr_expr(sb))
-                if isinstance(de, tuple) and de[0] == "call" and de[1] in ("le", "ge", "lt", "gt") and len(de[3]) == 2:
-                    f = [tgt for v, tgt in st["arms"] if v == 0]
-                    if f and branch_dominates(b, sb, f[0], bb):
-                        doms.append((de[1], de[3][0], de[3][1]))
-            w_ok = any(op == "le" and x[:2] == ("param", 1) and y[0] == "call" and y[1] == "zero" for op, x, y in doms)
-            m_ok = any(op == "ge" and x[:2] == ("param", 2) and y[:2] == ("param", 3) for op, x, y in doms)
+                neg = False
+                while isinstance(de, tuple) and de[0] == "unop" and de[1] == "Not":
+                    neg = not neg
+                    de = ds(de[2])
+                if not (isinstance(de, tuple) and de[0] == "call" and de[1] in ("le", "ge", "lt", "gt") and len(de[3]) == 2):
+                    continue
+                f = [tgt for v, tgt in st["arms"] if v == 0]
+                x, y = de[3]
+                for edge_t, truth in ((st["otherwise"], True), (f[0] if f else None, False)):
+                    if edge_t is None or not branch_dominates(b, sb, edge_t, bb):
+                        continue
+                    tv = truth != neg
+                    op = de[1]
+                    fact = {("lt", True): ("lt", x, y), ("lt", False): ("le", y, x), ("le", True): ("le", x, y), ("le", False): ("lt", y, x),
+                            ("gt", True): ("lt", y, x), ("gt", False): ("le", x, y), ("ge", True): ("le", y, x), ("ge", False): ("lt", x, y)}[(op, tv)]
+                    rels.add(fact)
+
+            def is_zero(e):
+                return isinstance(e, tuple) and e[0] == "call" and e[1] == "zero"
+            w_ok = any(r[0] == "lt" and is_zero(r[1]) and r[2][:2] == ("param", 1) for r in rels)
+            m_ok = any(r[0] == "lt" and r[1][:2] == ("param", 2) and r[2][:2] == ("param", 3) for r in rels)
             ctx.ob("R11", "EquiSpaced::new/validity-guard", w_ok and m_ok, b.where(),
-                   "construction dominated by !(bin_width <= 0) and !(min >= max): every builder has width > 0 ∧ min < max" if w_ok and m_ok else
+                   "construction dominated by zero < bin_width and min < max: every builder has width > 0 ∧ min < max" if w_ok and m_ok else
                    "construction is not dominated by both validity conditions (width>0: %s, min<max: %s)" % (w_ok, m_ok),
                    what="invalid builder constructible")
             s = b.blocks[bb]["stmts"][si]
@@ -1225,15 +1293,30 @@ def rule_c12_structure(ctx, prog, rule="R13"):
     # from_array of the four direct strategies: min ← a.min(), max ← a.max(), passed in that order
     for sname in STRATEGIES:
         fa = prog.find("histogram::strategies::%s<T> as histogram::strategies::BinsBuildingStrategy>::from_array" % sname)
-        news = [(bb, t) for bb, t in fa.calls() if callee_name(t) == "new" and "EquiSpaced" in (t["callee"].get("path") or "")]
+        from .rules_guard import subst as gsubst
+
+        def find_new(body, mapping, depth=0):
+            """arguments of the EquiSpaced::new call reachable through private helpers, expressed over from_array's parameters"""
+            res = []
+            for bb, t in body.calls():
+                if callee_name(t) == "new" and "EquiSpaced" in (t["callee"].get("path") or ""):
+                    res.append([gsubst(ds(x), mapping) if mapping else ds(x) for x in body.call_arg_exprs(bb)])
+                    continue
+                cb = prog.local_callee_body(t)
+                if cb is not None and cb.key not in prog.exported and not cb.is_closure and depth < 2 and "strategies" in cb.key \
+                        and callee_name(t) not in ("compute_bin_width", "build", "n_bins", "bin_width"):
+                    args = [gsubst(ds(x), mapping) if mapping else ds(x) for x in body.call_arg_exprs(bb)]
+                    res.extend(find_new(cb, {i + 1: a for i, a in enumerate(args)}, depth + 1))
+            return res
+        news = find_new(fa, None)
         ok = len(news) == 1
         detail = "%d EquiSpaced::new calls" % len(news)
         if ok:
-            bb, t = news[0]
-            a_ = [ds(x) for x in fa.call_arg_exprs(bb)]
+            a_ = news[0]
 
             def from_extremum(e, which):
                 for _ in range(4):
+                    e = ds(e)
                     if isinstance(e, tuple) and e[0] == "call" and e[1] == "clone" and e[3]:
                         e = ds(e[3][0])
                         continue
@@ -1429,9 +1512,10 @@ def rule_c18_quantiles(ctx, prog, rule="R13"):
     if ok:
         c = lane[0]
         # needs_lower/needs_higher/lower_index/higher_index argument agreement between the collecting loop and the lookup
-        def sig(b):
+        def sig(b0):
             out = set()
-            for bb, t in b.calls():
+            group = [b0] + [x for x in prog.bodies.values() if x.is_closure and x.key.startswith(b0.key + "::")]
+            for b, bb, t in [(g, bb, t) for g in group for bb, t in g.calls()]:
                 nm = callee_name(t)
                 if nm in ("needs_lower", "needs_higher", "lower_index", "higher_index"):
                     args = []
@@ -1526,6 +1610,24 @@ def rule_moment_pipeline(ctx, prog, rule="R19"):
     hb = prog.find("summary_statistics::means::horner_method")
     try:
         tb = prog.tracked(hb)
+        folds = [(bb, t) for bb, t in tb.calls() if callee_name(t) == "fold" and (t["callee"].get("trait") or "").endswith("Iterator")]
+        if folds:
+            bb, t = folds[0]
+            a = tb.call_arg_exprs(bb)
+            cb, ups = closure_of(prog, a[2])
+            ret, _ = closure_terms(prog, cb, {2: ("sym", "ACC"), 3: ("sym", "e0")}, upvar_leaf=lambda e: ("sym", "indeterminate"))
+            src = ds(a[0])
+            chain = []
+            while src[0] == "call" and src[1] in ("into_iter", "rev", "iter"):
+                chain.append(src[1])
+                src = ds(src[3][0])
+            Kh = Kernel(prog, tb, lambda e: None)
+            okh = canon_op(ret) == canon_op(("add", ("sym", "e0"), ("mul", ("sym", "indeterminate"), ("sym", "ACC")))) and \
+                Kh.term(a[1]) == ("num", 0) and chain.count("rev") == 1 and src[:2] == ("param", 1) and ds(tb.return_expr())[:2] == ("call", "fold")
+            ctx.ob(rule, "horner_method/recurrence", okh, hb.where(),
+                   "fold(0, |r, c| c + t·r) over the coefficients in reverse: evaluates Σ c_k t^k" if okh else
+                   "Horner fold is step=%s reversed=%s" % (show(ret), chain), what="polynomial not evaluated by Horner's rule")
+            raise StopIteration
         lp = T.Loop(tb)
         it = lp.iterator()
         il, item, iinit = it
@@ -1560,6 +1662,8 @@ def rule_moment_pipeline(ctx, prog, rule="R19"):
                "r ← c_k + t·r from 0 over the coefficients in reverse: evaluates Σ c_k t^k" if okh else
                "Horner loop is init=%s step=%s reversed=%s returns-acc=%s" % (show(init), show(step), rev_ok, ret_ok),
                what="polynomial not evaluated by Horner's rule")
+    except StopIteration:
+        pass
     except Unrecognised as ex:
         unrec(ctx, rule, "horner_method/recurrence", hb.where(), ex)
     # raw moments: m_0 = one(), m_1 = Σ/n, m_k = Σ x^k / n
@@ -1638,8 +1742,7 @@ def rule_c01_interpolation(ctx, prog, rule="R19"):
     IDX = ("mul", q, ("sub", n, ("num", 1)))
     qn = {1: q, 2: n}
     # index arithmetic
-    for name, spec in (("float_quantile_index", IDX), ("float_quantile_index_fraction", ("fn", "fract", IDX)),
-                       ("lower_index", ("fn", "floor", IDX)), ("higher_index", ("fn", "ceil", IDX))):
+    for name, spec in (("lower_index", ("fn", "floor", IDX)), ("higher_index", ("fn", "ceil", IDX))):
         b = prog.find("quantile::interpolate::%s" % name)
         try:
             t = fn_term(prog, b, qn)
@@ -1673,7 +1776,7 @@ def rule_c01_interpolation(ctx, prog, rule="R19"):
         ok = isinstance(r, tuple) and r[0] == "call" and r[1] == "lt" and ds(r[3][1]) == ("const", "f64", 0.5)
         if ok:
             Kn = Kernel(prog, prog.tracked(nlb), lambda e: qn.get(e[1]) if (isinstance(e, tuple) and e[0] == "param") else
-                        (fn_term(prog, prog.bodies[e[2]], {i + 1: Kn.term(a) for i, a in enumerate(e[3])}) if (isinstance(e, tuple) and e[0] == "call" and e[2] in prog.bodies and e[2].startswith("quantile::interpolate::float")) else None))
+                        (fn_term(prog, prog.bodies[e[2]], {i + 1: Kn.term(a) for i, a in enumerate(e[3])}) if (isinstance(e, tuple) and e[0] == "call" and e[2] in prog.bodies and e[2].startswith("quantile::interpolate::")) else None))
             ok = canon_op(Kn.term(r[3][0])) == canon_op(FR)
         ctx.ob(rule, "Nearest/needs_lower", ok, nlb.where(), "lower iff fract((N−1)q) < 0.5" if ok else "Nearest::needs_lower is `%s`" % fmt(r)[:100],
                what="nearest neighbour chosen by the wrong threshold")
@@ -1744,10 +1847,16 @@ def rule_c01_interpolation(ctx, prog, rule="R19"):
                     st_ok = True
             # lookups use lower_index/higher_index of the same (q, axis_len)
             lk = {}
-            for cbb, ct in c.calls():
-                if callee_name(ct) in ("lower_index", "higher_index"):
-                    aa = [ds(x) for x in c.call_arg_exprs(cbb)]
-                    lk[callee_name(ct)] = (aa[0] == qarg, ds(up(prog, c, aa[1])[1]) == le_)
+            nested = [c] + [x for x in prog.bodies.values() if x.is_closure and x.key.startswith(c.key + "::")]
+            for g in nested:
+                for cbb, ct in g.calls():
+                    if callee_name(ct) in ("lower_index", "higher_index"):
+                        aa = g.call_arg_exprs(cbb)
+                        qa = ds(up(prog, g, aa[0])[1]) if g is not c else ds(aa[0])
+                        la = up(prog, g, aa[1])
+                        while la[0].is_closure and la[0] is not inner and isinstance(ds(la[1]), tuple) and ds(la[1])[0] == "upvar":
+                            la = up(prog, la[0], la[1])
+                        lk[callee_name(ct)] = (qa == qarg, ds(up(prog, la[0], la[1])[1]) == le_ if la[0].is_closure else ds(la[1]) == le_)
             ok = q_is_elem and len_ok and st_ok and lk.get("lower_index") == (True, True) and lk.get("higher_index") == (True, True)
             detail = "*result_j = I::interpolate(index_map[lower_index(q_j, axis_len)], index_map[higher_index(q_j, axis_len)], q_j, axis_len)" if ok else \
                 "q is the zipped element=%s axis_len=len_of(data, axis)=%s stored into the paired result=%s lookups=%s" % (q_is_elem, len_ok, st_ok, lk)
